@@ -198,9 +198,11 @@ func mixCase(r *rand.Rand, s string) string {
 	return string(b)
 }
 
-func randPort(r *rand.Rand) int {
-	// below the ephemeral range, above the well known ones
-	return 10000 + r.Intn(20000)
+// casePort: a port below the ephemeral range and above the well known ones that
+// no other case within 10000 consecutive ids uses (k = 0 url, 1 dial_addr), so
+// that "random port" cases never share a [::1]:port with anybody.
+func casePort(id, k int) int {
+	return 10000 + (id*2+k)%20000
 }
 
 // genCases builds the seed-determined case list. Scheme x host class x port
@@ -354,7 +356,7 @@ func fill(r *rand.Rand, c *Case) {
 	switch c.PortClass {
 	case "none":
 	case "random":
-		c.Port = randPort(r)
+		c.Port = casePort(id, 0)
 	default:
 		c.Port, _ = strconv.Atoi(c.PortClass)
 	}
@@ -372,7 +374,7 @@ func fill(r *rand.Rand, c *Case) {
 		case 2:
 			return 443
 		default:
-			return randPort(r)
+			return casePort(id, 1)
 		}
 	}
 	dportText := func() string {
